@@ -22,3 +22,12 @@ func (mp *Multiperiod) ZZSet(from, to string, last int, iv date.Interval, ivSet 
 	}
 	return nil
 }
+
+// ZZSetInterval selects one of --days/--weeks/... (0 = none).
+func (mp *Multiperiod) ZZSetInterval(iv int) {
+	mp.interval.def = date.Once
+	mp.interval.flags = [6]bool{}
+	if iv != 0 {
+		mp.interval.flags[iv] = true
+	}
+}
